@@ -7,6 +7,7 @@ import (
 	"fmt"
 	"sync/atomic"
 	"testing"
+	"time"
 
 	nt "github.com/mit-pdos/go-nfsd/nfstypes"
 	"pgregory.net/rapid"
@@ -37,6 +38,11 @@ func runCrashProperty(t *rapid.T, pc crashProgCfg) {
 		}
 	}()
 	x.Budget = int64(size-1540) / 2
+	if rapid.IntRange(0, 2).Draw(t, "slow_commit") == 0 {
+		// the client's requests rest 2 ms at their commit points: background work may overtake them where it can
+		x.SlowCommit = 2 * time.Millisecond
+		St.Class("programs_whose_requests_rest_at_their_commit_points")
+	}
 	cfg := DefaultCfg()
 	cfg.BadRefs, cfg.WrongKind = 2, 2
 	cfg.Restarts = false
@@ -271,6 +277,7 @@ func runCrashProperty(t *rapid.T, pc crashProgCfg) {
 			newsz += BlockSize
 		}
 		name := "zz_tail"
+		tailRemove := rapid.IntRange(0, 2).Draw(t, "tail_remove") == 0 // ... or it is removed: the shrinker frees it
 		var f *MNode
 		steps := []func() error{
 			func() error { return x.Create(LiveRef(x.M.Root), name) },
@@ -290,6 +297,9 @@ func runCrashProperty(t *rapid.T, pc crashProgCfg) {
 			func() error {
 				if f == nil {
 					return nil
+				}
+				if tailRemove {
+					return x.Remove(LiveRef(x.M.Root), name)
 				}
 				return x.Setattr(LiveRef(f), &newsz, false)
 			},
